@@ -129,6 +129,35 @@ def gen_lock_cases(chk, quick):
     return cases
 
 
+def gen_fault_cases(chk, quick):
+    """FAULT: xvc's own output cannot be delivered (reader of the stdout/stderr pipe gone at once / after the first line /
+    after 64 bytes, or /dev/full).  Oracle under the fault = C11's headline only: the run terminates (any exit status, a
+    panic exit is fine) and leaves no xvc process behind; verdicts cannot be judged because what was printed is gone.
+    The corpus entry first: seed C11-2 (minimised): a <- b, both commands print a line, `xvc pipeline run | true`."""
+    rng = chk.rng
+    cases = [sc.mk_case(sc.mk_spec(2, [(1, 0)], whens=['always', 'always']), 2, [{'out': 6}, {'out': 6}], fault='stdout-closed',
+                        label='corpus/C11-2 a<-b | true')]
+    shapes = [
+        ('chain', lambda: (sc.mk_spec(3, [(1, 0), (2, 1)], whens=[rng.choice(sc.WHENS[:2]) for _ in range(3)]), [{'out': 8}, {'out': 8, 'sleep_ms': 20}, {}], [])),
+        ('join', lambda: (sc.mk_spec(3, [(2, 0), (2, 1)]), [{'out': 20, 'sleep_ms': 30}, {'rc': 1, 'err': 50}, {}], [])),
+        ('independent', lambda: (sc.mk_spec(4, []), [{'out': 10, 'sleep_ms': 40} for _ in range(4)], [])),
+        ('missing-dep', lambda: (sc.mk_spec(3, [(1, 0), (2, 1)], inputs=[True, False, False]), [{}, {'out': 9}, {}], [0])),
+        ('big-output', lambda: (sc.mk_spec(2, [(1, 0)]), [{'out': 70000, 'err': 70000}, {'out': 5}], [])),
+        ('signal', lambda: (sc.mk_spec(2, [(1, 0)], whens=['by_dependencies', 'always']), [{'signal': 9, 'out': 30}, {'out': 5}], [])),
+    ]
+    for fault in sc.FAULTS:
+        for name, mk in shapes:
+            if quick and fault in ('stderr-head1', 'both-devfull') and name in ('signal', 'big-output'):
+                continue
+            spec, behav, missing = mk()
+            cases.append(sc.mk_case(spec, rng.choice([1, 2]), behav, missing=missing, fault=fault, label=f'fault/{name}'))
+    if not quick:
+        for e in rng.sample(list(sc.all_dags(4)), 60):
+            c = outcome_variants(rng, 4, e, 1)[0]
+            cases.append(dict(c, fault=rng.choice(sc.FAULTS), runs=1, label='fault/random-dag'))
+    return cases
+
+
 def run(chk):
     quick = chk.tier == 'quick'
     ctx = sc.prepare(chk, PROPS)
@@ -141,6 +170,9 @@ def run(chk):
         'a command writing {0,1000,70000,300000} bytes to stdout x the same to stderr (pipe capacity 65536), succeeding or failing, with a dependent; ' +
         ('60 of the 543 DAGs on 4 steps + all DAGs on 2..3 steps' if quick else 'ALL 543 DAGs on 4 steps x 4 + all DAGs on <= 3 steps x 10 + 150 random DAGs on 5..8 steps') +
         ' with random outcomes (35 % failing commands, 20 % of the private input files missing, 25 % large outputs), when-options, pools 1/2/4, one or two runs. '
+        'OUTPUT-FAULT STREAM (hook-free binary; first the minimised C11-2 scenario a<-b | true): chains, joins, independent steps, a missing dependency file, '
+        '70000 B outputs and a signal-killed command, each with xvc\'s stdout/stderr reader gone at once (| true), after the first line (| head -1), after 64 bytes, '
+        'both streams closed, and stdout (and stderr) = /dev/full; judged only on: the run terminates (any exit status) and leaves no xvc process behind; '
         'LOCK STREAM: 4 pipelines with 2-4 parallel steps whose dependencies (generic command output, lines, regex, param, glob and 1-6 sparse files of '
         '6-32 MiB each) are ALL changed before every run, 5 (quick) / 12 (thorough) consecutive runs each on the hook-free binary and 2 on the hook build; '
         'a run still alive after 15 s is observed for 3-60 s more and counts as hung only if it stays alive without using CPU; '
@@ -148,6 +180,8 @@ def run(chk):
         'Each case runs on the hook-free binary and on the hook build with seeded delays (traces validated by the model driver). Timeout 12 s (quick) / 20 s (thorough) per run '
         '(commands sleep <= 90 ms).')
     chk.extra['exhaustive'] = not quick
+    fault_cases = gen_fault_cases(chk, quick)
+    sc.run_family(ctx, 'output-fault/plain', fault_cases, OWN, hook=False, timeout=12, shrink=5)
     lock_cases = gen_lock_cases(chk, quick)
     sc.run_family(ctx, 'locks/plain', lock_cases, OWN, hook=False, timeout=15, workers=2, confirm=False, shrink=False)
     sc.run_family(ctx, 'outcomes/plain', cases, OWN, hook=False, timeout=12 if quick else 20)
